@@ -110,6 +110,9 @@ func replay(in, out string) {
 			if st != nil {
 				t.Emit(ObsEv(c, st, "k", c.Keys, nil))
 			}
+		case "modes":
+			c0 := caseFromNew(map[string]interface{}{"keys": e["keys"], "vals": e["vals"], "enc": e["enc"], "opt": []interface{}{0.0, 0.0, 0.0, 0.0}})
+			t.Emit(modesEv(c0, toStrings(e["qs"])))
 		case "obsq":
 			if st != nil {
 				t.Emit(ObsEv(c, st, "q", toStrings(e["qs"]), toIntSlice(e["fp"])))
